@@ -347,8 +347,8 @@ package task
 //@   ensures sent
 
 // ---------------------------------------------------------------------------------------------------------
-// C13: inbound channels are configured from the task's own bind map, outbound ones from the environment-wide map, and an
-// outbound channel that cannot be resolved aborts the configuration.
+// C13: inbound channels are configured from the task's own bind map, outbound ones from the environment-wide map, and a
+// channel - outbound or inbound - that cannot be resolved aborts the configuration.
 //@ func (t *Task) BuildPropertyMap(bindMap channel.BindMap) (propMap controlcommands.PropertyMap, err error)
 //@   property C13 C14
 //@   ghostvar outErr bool = false
@@ -360,6 +360,17 @@ package task
 //@   [C13] loop 7 invariant !outErr
 //@   [C13] loop 8 invariant !outErr
 //@   [C13] ensures outErr ==> err != nil
+// "every inbound channel is told to bind exactly that endpoint": an inbound channel whose configuration cannot be
+// generated aborts the configuration as well (its peers are told to connect to it all the same)
+//@   ghostvar inErr bool = false
+//@   on aftercall (*channel.Inbound).ToFMQMap : inErr = inErr || (result1 != nil)
+//@   [C13] loop 3 invariant !inErr
+//@   [C13] loop 4 invariant !inErr
+//@   [C13] loop 5 invariant !inErr
+//@   [C13] loop 6 invariant !inErr
+//@   [C13] loop 7 invariant !inErr
+//@   [C13] loop 8 invariant !inErr
+//@   [C13] ensures inErr ==> err != nil
 // C14: the workflow's stack ranks above the task class's own vars and defaults: it is the wrapping (winning) level
 //@   ghostvar wf *string = nil
 //@   [C14] on aftercall .ConsolidatedVarStack : wf = result0
